@@ -1,9 +1,14 @@
 """
 C20  Pretty output is indented exactly by block depth, ends with one newline.
 
-proof   lean/CalmVerif/Props/C20.lean over Model.Unparse with the generated `indent` rule set
-        (Gen.Defs, Gen.Rules): defs_indent_balanced (decide), level_returns_to_zero,
-        ends_with_one_newline, level_is_depth, other_lines_are_token_interiors (see the file for the exact statements).
+proof   lean/CalmVerif/Props/C20.lean over Model.Unparse with the generated `indent` rule set (Gen.Defs, Gen.Rules):
+        defs_indent_balanced, defs_indent_net_zero, indent_table_normalisations_balanced, defs_bracket_structure,
+        program_ends_with_optional_newline (decide over the regenerated tables);
+        level_returns_to_zero (all trees, all indent strings, any hooks), ends_with_one_newline_partial,
+        other_lines_are_token_interiors, tokens_preserved, chunk_stream_structure, level_is_structural_depth,
+        level_is_depth_partial (no Case/Default), newline_handler_indents_by_level, empty_indent_string_is_used
+        (regression obligation of fixed finding KF-20a).  The decidable hypotheses of the partial theorems (tailSafe,
+        tokensCleanB, valAll lineSafe / braceFree) are evaluated by the model on every program of the tie.
 tie     S3/S4 (parts/unparse_tie.py): fragment streams and printed text of the real printers vs `drv_unparse`,
         fragment by fragment incl. positions / name / source, for pretty_printer(indent) with
         indent in {'', ' ', '  ', '\\t', ' \\t', default}, rules.indent(None), minify_printer(drop_semi on/off),
@@ -111,7 +116,8 @@ def scan(text):
                 pk, pt = prev
                 if pk in ('id', 'num', 'str', 'regex') or (pk == 'kw' and pt in EXPR_END_KW):
                     regex_ok = False
-                elif pk == 'punct' and pt == ']':
+                elif pk == 'punct' and pt in (']', '++', '--'):
+                    # `a++ / b`: a postfix operator ends an expression (a prefix one cannot be followed by a regex)
                     regex_ok = False
                 elif pk == 'punct' and pt == ')':
                     regex_ok = last_close_header
@@ -421,13 +427,13 @@ def programs_for(ctx):
     for e in corpus.extra('C20'):
         texts.append(e['text'] if isinstance(e, dict) else e)
     g1 = corpus.g1_valid()
-    texts += rng.sample(g1, min(len(g1), ctx.n(120, len(g1))))
+    texts += rng.sample(g1, min(len(g1), ctx.n(80, len(g1))))
     stats = {}
-    for text, toks, lo in genjs.programs(rng, ctx.n(80, 1500), stats=stats):
+    for text, toks, lo in genjs.programs(rng, ctx.n(50, 800), stats=stats):
         texts.append(text)
     for k, v in stats.items():
         ctx.bump('genjs:' + k, v)
-    for _ in range(ctx.n(150, 3000)):
+    for _ in range(ctx.n(100, 1500)):
         texts.append(nested_program(rng))
     return texts
 
@@ -435,7 +441,7 @@ def programs_for(ctx):
 def indents_for(ctx, rng):
     base = list(ut.INDENTS)
     extra = []
-    for _ in range(ctx.n(2, 6)):
+    for _ in range(ctx.n(2, 3)):
         extra.append(''.join(rng.choice([' ', '\t', ' ', '\xa0', '\x0b']) for _ in range(rng.randint(1, 5))))
     return base, extra
 
@@ -588,7 +594,7 @@ def run(ctx):
         ctx.obligation('tie:S3', False, 'tie', 'driver not built')
         return
     trng = ctx.sub_rng('tie')
-    tie_items = list(FIXED) + trng.sample(texts, min(len(texts), ctx.n(60, 1200)))
+    tie_items = list(FIXED) + trng.sample(texts, min(len(texts), ctx.n(40, 600)))
     cfgs = ut.default_configs()
     diffs = ut.unparse_tie(ctx, tie_items, cfgs, record=False)
     diffs += ut.unparse_tie(ctx, hand_built_trees(trng), cfgs, record=False, texts=False)
